@@ -1354,21 +1354,29 @@ Proof.
     cbn [length]. rewrite !Nat2N.inj_succ. f_equal; lia.
 Qed.
 
-Lemma first_key_not_ws pf fs l : fs <> [] -> fields_ok pf fs = true ->
-  skip_ws (print_fields pf fs ++ l) = print_fields pf fs ++ l.
+Lemma first_key_head pf fs l : fs <> [] -> fields_ok pf fs = true ->
+  exists c0 w, print_fields pf fs ++ l = c0 :: w /\ is_ws c0 = false /\ (c0 =? EQ) = false.
 Proof.
   intros NE H. unfold fields_ok in H. rewrite !andb_true_iff in H. destruct H as [[[_ H] _] FW].
   destruct fs as [|[k v] r]; [congruence|]. cbn [forallb fst snd] in H. apply andb_true_iff in H as [H _].
   apply andb_true_iff in H as [HK _]. unfold fieldkey_ok in HK. apply andb_true_iff in HK as [HK _].
   apply andb_true_iff in HK as [NEk _]. destruct k as [|c t]; [discriminate|].
-  assert (HD : exists c0 w, print_fields pf ((c :: t, v) :: r) ++ l = c0 :: w /\ is_ws c0 = false).
-  { assert (E : exists w, print_fields pf ((c :: t, v) :: r) = escape_string (c :: t) ++ w).
-    { destruct r; cbn [print_fields]; eauto. }
-    destruct E as [w ->]. rewrite escape_string_set, esc_set_cons.
-    destruct (is_esc_char c) eqn:Ec; cbn [app]; eexists _, _; (split; [reflexivity|]); [reflexivity|].
-    destruct (esc_char_cases c Ec) as [_ [_ [C3 _]]]. unfold is_ws. rewrite C3.
+  assert (E : exists w, print_fields pf ((c :: t, v) :: r) = escape_string (c :: t) ++ w).
+  { destruct r; cbn [print_fields]; eauto. }
+  destruct E as [w E].
+  assert (G : forall x : bytes, x = escape_string (c :: t) ++ w ->
+              exists c0 w', x ++ l = c0 :: w' /\ is_ws c0 = false /\ (c0 =? EQ) = false).
+  { intros x ->. rewrite escape_string_set, esc_set_cons.
+    destruct (is_esc_char c) eqn:Ec; cbn [app]; eexists _, _; (split; [reflexivity|]); [split; reflexivity|].
+    destruct (esc_char_cases c Ec) as [_ [_ [C3 C4]]]. split; [|exact C4]. unfold is_ws. rewrite C3.
     apply negb_true_iff in FW. exact FW. }
-  destruct HD as [c0 [w [E W]]].
+  apply G. exact E.
+Qed.
+
+Lemma first_key_not_ws pf fs l : fs <> [] -> fields_ok pf fs = true ->
+  skip_ws (print_fields pf fs ++ l) = print_fields pf fs ++ l.
+Proof.
+  intros NE H. destruct (first_key_head pf fs l NE H) as [c0 [w [E [W _]]]].
   assert (G : forall x : bytes, x = c0 :: w -> skip_ws x = x).
   { intros x ->. cbn [skip_ws]. rewrite W. reflexivity. }
   apply G. exact E.
@@ -1387,8 +1395,13 @@ Lemma scan_fields_printed pf fs tail : fields_ok pf fs = true ->
   scan_fields (SP :: print_fields pf fs ++ tail) = Ok (print_fields pf fs, tail).
 Proof.
   intros H TL. destruct (fields_ok_fkv pf fs H) as [NE FA].
-  unfold scan_fields. cbn [skip_ws skip_ws_last]. unfold is_ws at 1 2. rewrite N.eqb_refl. cbn [orb].
+  unfold scan_fields. cbn [skip_ws skip_ws_last]. unfold is_ws at 1 2 3. rewrite N.eqb_refl. cbn [orb].
   rewrite (first_key_not_ws pf fs tail NE H).
+  destruct (first_key_head pf fs tail NE H) as [c0 [w0 [E0 [_ C0]]]].
+  assert (NOTEQ : match print_fields pf fs ++ tail with c :: _ => c =? EQ | [] => false end = false).
+  { assert (G : forall x : bytes, x = c0 :: w0 -> match x with c :: _ => c =? EQ | [] => false end = false)
+      by (intros x ->; exact C0). apply G. exact E0. }
+  rewrite NOTEQ.
   rewrite (sf_fields pf fs NE FA 0 _ 0 tail TL).
   assert (LP : (0 < length fs)%nat) by (destruct fs; [congruence|cbn; lia]).
   unfold fields_fin.
